@@ -16,12 +16,15 @@ package region
 //@   loop 1 invariant forall(k, i < k && k < len(b), b[k] != ',')
 //@   loop 1 decreases i - offset
 
+// Compare needs names of the shape x,y,z (two different commas) in order not to panic - that is its precondition, and
+// what the location cache must guarantee of every name it stores (C11: names come from hbase:meta rows). The order it
+// computes is the component-wise one for well-formed names (legal table alphabet), C16.
 //@ func region.Compare
-//@   requires wfName(a) && wfName(b)
-//@   ensures[C16] (r0 < 0) == cmp3lt(a, b)
-//@   ensures[C16] (r0 > 0) == cmp3lt(b, a)
-//@   ensures[C16] (r0 == 0) == cmp3eq(a, b)
-//@   panics never[C16]
+//@   requires nameShape(a) && nameShape(b)
+//@   ensures[C16] wfName(a) && wfName(b) ==> ((r0 < 0) == cmp3lt(a, b))
+//@   ensures[C16] wfName(a) && wfName(b) ==> ((r0 > 0) == cmp3lt(b, a))
+//@   ensures[C16] wfName(a) && wfName(b) ==> ((r0 == 0) == cmp3eq(a, b))
+//@   panics never[C16,C11]
 //@   loop 1 invariant 0 <= i && i <= length
 //@   loop 1 invariant forall(k, 0 <= k && k < i, a[k] == b[k] && a[k] != ',')
 //@   loop 1 decreases length - i
@@ -90,6 +93,10 @@ package region
 //@   panics never[C11]
 //@   ensures[C11] (r1 == nil) == (r0 != nil)
 //@   ensures r0 != nil ==> !was(allocated(r0))
+// a row is accepted as a region descriptor only if its key - which becomes the region's name, stored unchanged by NewInfo -
+// has the shape region.Compare needs (two different commas): a malformed row key from hbase:meta is an error here, not a
+// panic in the location cache later (finding F19)
+//@   ensures[C11] r1 == nil ==> nameShape(cell.Row)
 
 //@ func region.ParseRegionInfo
 //@   requires metaRow != nil
@@ -232,6 +239,23 @@ package region
 //@   at call returnResult#1 ghost completed[rpc] == ghostat("completed", rpc) + 1
 //@   at call returnResult#2 ghost completed[rpc] == ghostat("completed", rpc) + 1
 //@   ensures[C03] forall(k, old(haskey(c.sent, k)) && !haskey(c.sent, k) ==> ghostat("completed", old(c.sent[k])) == old(ghostat("completed", c.sent[k])) + 1 || ghostat("ctxdone", old(c.sent[k]).Context()) == 1)
+
+// the reader goroutine (C03, C18, C20). A failure of the connection reported by receive - a ServerError: short read, read
+// timeout, undecodable frame - always runs the failure transition and ends the goroutine (ghost rxerr = 1 when the
+// last receive returned a ServerError: the loop never goes round again in that state: a silent server is detected, C18); nothing
+// else does (an answer about one region must not take down the connection its other regions share, C20); and the
+// goroutine ends only once the connection has failed.
+// (receive has no frame contract: what it and fail need of the connection object is assumed at the two calls)
+//@ func region.(*client).receiveRPCs
+//@   requires c.conn != nil
+//@   at call receive#1 assume-shared c.sent != nil && sentWF(c) && inflightInv(c) && netRange(c)
+//@   at call NewReader#1 ghost rxerr == 0
+//@   at after receive#1 ghost rxerr == ite(typeis(res0, "region.ServerError"), 1, 0)
+//@   at call fail#1 assume-shared c.sent != nil && sentWF(c) && failWF(c)
+//@   at call fail#1 assert[C20,C03] typeis(err, "region.ServerError")
+//@   at return 1 assume-shared ghostat("closed", c.done) == 1
+//@   loop 1 invariant[C18,C03] ghost("rxerr") == 0
+//@   ensures[C03] ghostat("oncedone", ref(c.failOnce)) == 1 || ghostat("closed", c.done) == 1
 
 //@ func region.freeMulti
 //@   requires m != nil
@@ -387,6 +411,9 @@ package region
 //@   modifies nothing
 //@   panics never[C15]
 //@   ensures[C15] len(r0) >= 4 && be32(r0) == uncompressedLen
+// the block carries the whole payload: when the writer returns, every payload byte has been read into some chunk (a block
+// that announces more than it carries cannot be decoded by anybody)
+//@   at return 1 assert[C15] total(cbs) == 0
 //@   loop 1 invariant[C15] 0 <= total(cbs) && total(cbs) <= uncompressedLen
 //@   loop 1 invariant[C15] len(b) >= 4 && be32(b) == uncompressedLen && refof(b) != refof(uncompressedBuffer)
 //@   loop 1 invariant[C15] len(uncompressedBuffer) == ite(uncompressedLen < c.Codec.ChunkLen(), uncompressedLen, c.Codec.ChunkLen())
@@ -427,6 +454,9 @@ package region
 //@   ensures[C18] r1 == nil ==> ghostat("net", c) == old(ghostat("net", c)) + 1 && ghost("written") == old(ghost("written")) + 1 && inflightInv(c)
 //@   ensures[C18] ghost("written") == old(ghost("written")) ==> ghostat("net", c) == old(ghostat("net", c))
 //@   ensures[C18] ghostat("net", c) == old(ghostat("net", c)) || ghostat("net", c) == old(ghostat("net", c)) + 1
+// a send takes exactly one call id, also when it fails (C02): ids are never handed back - a later registration could
+// otherwise be given an id that is still in flight and take over its entry in the sent table
+//@   ensures[C02] c.id == (old(c.id) + 1) % 4294967296
 
 // ---- failure of a connection completes every outstanding call exactly once (C03) ----
 // Ghost ledger delivered[call] counts the results handed to a call (sends on its result channel).
@@ -486,6 +516,8 @@ package region
 // counting it down would leave the counter below the number of requests outstanding and the read deadline unarmed
 //@   ensures[C18] ghostat("net", c) == old(ghostat("net", c)) || ghostat("net", c) == old(ghostat("net", c)) + 1
 //@   ensures[C18] ghost("written") == old(ghost("written")) ==> ghostat("net", c) == old(ghostat("net", c))
+// ... and the call id it took stays taken (C02)
+//@   ensures[C02] c.id == (old(c.id) + 1) % 4294967296
 
 // queueing (C03): a request handed to a connection whose failure transition has completed (done closed) is refused at once
 // with the connection-level error and is never put on the wire; a request whose own context has ended is dropped; a
@@ -615,6 +647,10 @@ package region
 
 //@ func region.(*info).MarkUnavailable
 //@   modifies F.region.info.available
+// the mark is tested and set in one critical section: only one of several concurrent callers gets `true` and becomes the
+// establisher (C09). Taking the decision from the lock-taking accessors and the lock again for the update would let two
+// callers both see "available" - sequentially indistinguishable, hence stated as a discipline
+//@   nocall[C09] IsUnavailable, AvailabilityChan "test and set of the availability mark are one critical section"
 //@   panics never[C09]
 //@   ensures[C09] r0 == (old(i.available) == nil) && i.available != nil
 //@   ensures[C09] old(i.available) == nil ==> ghostat("closed", i.available) == 0
@@ -623,6 +659,7 @@ package region
 // closing a nil channel (region not marked) or a closed one would panic: the caller must hold the token
 //@ func region.(*info).MarkAvailable
 //@   requires i.available != nil && ghostat("closed", i.available) == 0
+//@   nocall[C09] IsUnavailable, AvailabilityChan "the channel is taken and cleared in one critical section"
 //@   modifies F.region.info.available, X.closed
 //@   panics never[C09]
 //@   ensures[C09] i.available == nil && ghostat("closed", old(i.available)) == 1
